@@ -273,6 +273,7 @@ def run(c, chk):
     # ---- R2.6 ----------------------------------------------------------------
     loop_progress(c, chk, reach)
     reader_loops(c, chk)
+    slot_width(c, chk)
 
     # ---- R2.7: the parse loop never releases the same object twice / keeps a released one ----
     chk.rule('R2.7', 'the parser loop never keeps a pointer it has released for a later iteration (no double free / use after free on input)')
@@ -766,6 +767,49 @@ def reader_loops(c, chk):
             else:
                 chk.ok('R2.9', '%s loop@%s' % (f.name, c.where(f, f.blocks[h].first_line())), 'an empty read is retried only under errno == EINTR', sample=True)
     chk.floor('R2.9 retrying iterations of the reader', n, 1)
+
+
+def slot_width(c, chk):
+    """R2.10: the slot cfg_setopt() writes may be the application's own variable (a CFG_SIMPLE_* option): a cfg_bool_t of four
+    bytes for a boolean option.  On the paths of a boolean option the slot is therefore written through the boolean member
+    only - never as the whole eight-byte union (a structure copy or memcpy into the slot), which would overwrite what
+    lies behind the application's variable"""
+    from .. import parsermodel as pm
+    chk.rule('R2.10', 'on the paths of a boolean option cfg_setopt() writes the value slot through its four-byte member only (the slot may be the application\'s own cfg_bool_t)')
+    fn = c.need('cfg_setopt')
+    ex = sym.Explorer(c.modules, max_visits=2, mod_sets=c.mod_sets, max_paths=100000)
+    n = 0
+    bad = None
+    for p in ex.explore(fn):
+        if p.end != 'ret' or p.retval is None or p.retval == sym.C0:
+            continue
+        types = set()
+        for cn, t, _ in p.assume:
+            d = pm.describe_cond(cn)
+            neg = d.startswith('not(')
+            if neg:
+                d = d[4:-1]
+            if '->type eq ' in d and (t != neg):
+                types.add(d.split(' eq ')[1])
+        if 'BOOL' not in types:
+            continue
+        n += 1
+        slot = p.retval
+        for e in p.events:
+            if e.kind == 'call' and e.name in ('llvm.memcpy.p0i8.p0i8.i64', 'memcpy', 'llvm.memmove.p0i8.p0i8.i64', 'memmove', 'llvm.memset.p0i8.i64', 'memset') \
+                    and e.args and e.args[0] == slot and not (sym.is_const(e.args[2]) and e.args[2][1] <= 4):
+                bad = bad or (e, 'copies %s bytes into it' % sym.render(e.args[2]))
+            if e.kind == 'store' and e.addr[0] == 'fld' and e.addr[1] == slot and e.addr[2] == 'cfg_value_t' and e.addr[3] not in ('boolean',):
+                bad = bad or (e, 'writes its member "%s"' % e.addr[3])
+            if e.kind == 'store' and e.addr == slot:
+                bad = bad or (e, 'writes the whole slot')
+    if bad is not None:
+        e, what = bad
+        chk.fail('R2.10', 'bool-slot-width', c.where(e.ins), 'cfg_setopt() %s on a path of a boolean option: for a CFG_SIMPLE_BOOL option the slot is the application\'s own '
+                 'four-byte cfg_bool_t, and the bytes behind it are overwritten' % what)
+    elif n:
+        chk.ok('R2.10', 'cfg_setopt: %d successful paths of a boolean option' % n, 'the slot is written through the member "boolean" only', sample=True)
+    chk.floor('R2.10 successful paths of a boolean option', n, 4)
 
 
 def fp_cond_text(p):
